@@ -576,20 +576,60 @@ End Main.
 
 (* ---------- deployments: the key an entity signs with is the key of the certificate it publishes,
    namely the pair installed at its path when it was built ---------- *)
-Lemma loaded_published_gen d : forall fs before,
-  (forall p, fread fs p = last_install p before) ->
-  map fst (loaded fs d) = certs_from before d /\ map snd (loaded fs d) = certs_from before d.
+Lemma nth_error_snoc {A} (l : list A) x c :
+  nth_error (l ++ [x]) c = if Nat.eqb (length l) c then Some x else nth_error l c.
 Proof.
-  induction d as [|s r IH]; intros fs before H; [split; reflexivity|].
-  destruct s as [p k st how|p|j]; cbn [loaded certs_from].
-  - apply IH. intros q. cbn [fread last_install]. destruct (Nat.eqb p q); [reflexivity|apply H].
-  - rewrite H. destruct (IH fs (DCreate p :: before)) as [A B]; [intros q; cbn [last_install]; apply H|].
-    destruct (last_install p before); cbn [map fst snd]; [rewrite A, B; split; reflexivity|split; assumption].
-  - apply IH. intros q. cbn [last_install]. apply H.
+  revert c. induction l as [|a l IH]; intros [|c]; cbn; try reflexivity.
+  - destruct c; reflexivity.
+  - apply IH.
+Qed.
+
+Lemma loaded_published_gen d : forall fs cf before,
+  (forall p, fread fs p = last_install p before) ->
+  (forall c, nth_error cf c = conf_path c before) ->
+  length cf = nconf before ->
+  map fst (loaded fs cf d) = certs_from before d /\ map snd (loaded fs cf d) = certs_from before d.
+Proof.
+  induction d as [|s r IH]; intros fs cf before H HC HL; [split; reflexivity|].
+  destruct s as [p k st how|p|j|p how par|c|c]; cbn [loaded certs_from].
+  - apply IH; [|exact HC|exact HL]. intros q. cbn [fread last_install]. destruct (Nat.eqb p q); [reflexivity|apply H].
+  - unfold build_at. rewrite H.
+    destruct (IH fs cf (DCreate p :: before)) as [A B]; [intros q; cbn [last_install]; apply H|exact HC|exact HL|].
+    destruct (last_install p before); cbn [ocons map fst snd]; [rewrite A, B; split; reflexivity|split; assumption].
+  - apply IH; [intros q; cbn [last_install]; apply H|exact HC|exact HL].
+  - destruct (Nat.eqb how 3) eqn:E3.
+    + apply IH; [intros q; cbn [last_install]; apply H| |rewrite upd_length; cbn [nconf]; rewrite E3; exact HL].
+      intros c. cbn [conf_path]. rewrite E3. destruct (Nat.eqb par c) eqn:E.
+      * apply Nat.eqb_eq in E. subst c. rewrite nth_error_upd_same, HC. reflexivity.
+      * apply Nat.eqb_neq in E. rewrite nth_error_upd_other by exact E. apply HC.
+    + apply IH; [intros q; cbn [last_install]; apply H| |rewrite app_length; cbn [nconf length]; rewrite E3, HL; apply Nat.add_1_r].
+      intros c. cbn [conf_path]. rewrite E3, nth_error_snoc, HL. destruct (Nat.eqb (nconf before) c); [reflexivity|apply HC].
+  - rewrite HC.
+    destruct (IH fs cf (DBuild c :: before)) as [A B]; [intros q; cbn [last_install]; apply H|exact HC|exact HL|].
+    destruct (conf_path c before) as [p|]; cbn [cert_at]; [|split; assumption].
+    unfold build_at. rewrite H.
+    destruct (last_install p before); cbn [ocons map fst snd]; [rewrite A, B; split; reflexivity|split; assumption].
+  - apply IH; [intros q; cbn [last_install]; apply H|exact HC|exact HL].
 Qed.
 
 Lemma deploy_published d : deploy_keys d = published d /\ deploy_certs d = published d.
-Proof. apply loaded_published_gen. intros p. reflexivity. Qed.
+Proof. apply loaded_published_gen; [intros p; reflexivity|intros [|c]; reflexivity|reflexivity]. Qed.
+
+(* where a configuration object comes from (fresh dict, copy.copy of another entity's configuration, reload of a
+   dict that served before) does not matter: only the path it names when the entity is built *)
+Definition forget_origin (s : dstep) : dstep :=
+  match s with DConf p how par => if Nat.eqb how 3 then s else DConf p 0 0 | _ => s end.
+
+Lemma loaded_forget_origin d : forall fs cf, loaded fs cf (map forget_origin d) = loaded fs cf d.
+Proof.
+  induction d as [|s r IH]; intros fs cf; [reflexivity|].
+  destruct s as [p k st how|p|j|p how par|c|c]; cbn [map forget_origin loaded]; try (rewrite !IH; reflexivity).
+  destruct (Nat.eqb how 3) eqn:E3; cbn [loaded]; [rewrite E3|cbn [Nat.eqb]]; apply IH.
+Qed.
+
+Lemma lineage_irrelevant d :
+  deploy_keys (map forget_origin d) = deploy_keys d /\ deploy_certs (map forget_origin d) = deploy_certs d.
+Proof. unfold deploy_keys, deploy_certs. rewrite loaded_forget_origin. split; reflexivity. Qed.
 
 Section Deploy.
   Variable sigv : Type.
@@ -675,4 +715,16 @@ Example pool_witness :
   finished tsig st = true /\
   observe_all tsig tverify (deploy_certs pool_deploy) (outs tsig st) =
     [[OSig [true; false; false]]; [OSig [false; true; false]]; [OSig [false; false; true]]].
+Proof. vm_compute. auto. Qed.
+
+(* configuration objects: entity 0 from a fresh configuration naming path 0 (pair 10); its Config object is copied
+   and the copy pointed at path 1 (pair 20): entity 1; the original object is re-pointed at path 2 (pair 30): entity 2;
+   path 0 is rolled over to pair 40 and an entity is built from a reload of the first dict: entity 3 *)
+Definition lineage_deploy : list dstep :=
+  [DInstall 0 10 7 0; DInstall 1 20 7 0; DInstall 2 30 7 0; DConf 0 0 0; DBuild 0; DCtx 0; DConf 1 1 0; DBuild 1;
+   DConf 2 3 0; DBuild 0; DInstall 0 40 7 1; DConf 0 2 0; DBuild 2].
+
+Example lineage_witness :
+  deploy_keys lineage_deploy = [10; 20; 30; 40] /\ deploy_certs lineage_deploy = [10; 20; 30; 40] /\
+  published lineage_deploy = [10; 20; 30; 40].
 Proof. vm_compute. auto. Qed.
